@@ -91,7 +91,11 @@ def padded_cds(case):
     src = (d for d in dss)
   else:
     src = iter(dss)
-  if case.get('hp'):
+  if case.get('route'):
+    # hparams object plus keyword overrides that turn it into the effective (bs, buckets) - also back to a default value
+    base, over = case['route']
+    it = fedjax.padded_batch_client_datasets(src, cds.PaddedBatchHParams(**base), **over)
+  elif case.get('hp'):
     it = fedjax.padded_batch_client_datasets(src, cds.PaddedBatchHParams(batch_size=bs,
                                                                           num_batch_size_buckets=buckets))
   else:
@@ -423,6 +427,13 @@ def plan(ctx):
         for kind in kinds:
           cases.append({'sizes': sizes, 'B': bs, 'buckets': buckets, 'input': kind, 'hp': len(sizes) == 1,
                         'seed': ctx.seed})
+  from mc import routes as _routes
+  dom = {'batch_size': [2, 4], 'num_batch_size_buckets': [1, 2, 3]}
+  for eff in _routes.assignments(dom):
+    for label, base, over in _routes.routes(eff, dom):
+      if base is not None and over:
+        cases.append({'sizes': [3, 0, 5], 'B': eff['batch_size'], 'buckets': eff['num_batch_size_buckets'], 'input': 'gen',
+                      'route': [base, over], 'seed': ctx.seed})
   (ctx.pmap('padded_cds', cases, chunk=400) if th else ctx.run('padded_cds', cases, reverse_pass=True))
   ctx.run('padded_fd', [{'sizes': s, 'B': b, 'buckets': k, 'seed': ctx.seed}
                         for s in size_seqs(alpha if th else [0, 1, 2, 4, 5], 3) for b in (1, 2, 3, 4)
